@@ -2,6 +2,7 @@
    TLC checks every case against the rules under the code's decision procedure and exports the cases;
    the Go harness (harness/tbldrv) executes each case on the real code; the monitor <T>Trace evaluates the
    same rules on the observed outcomes."""
+import re
 import json, os, collections, time, shutil
 from vlib import *  # noqa
 
@@ -16,6 +17,57 @@ def tlc_lines(path, tag):
                     yield json.loads(json.loads(line.rstrip("\n")[len(pre) - 1:-2]))
                 except Exception:
                     continue
+
+
+LIB = "github.com/zitadel/oidc/v3/"
+
+
+def lib_crash(out):
+    """The process was killed by a Go panic / fatal error whose innermost non-runtime frame is code of zitadel/oidc
+    (a goroutine of the library that no caller can recover from). Returns the function name, or None."""
+    m = re.search(r"^(panic: |fatal error: )", out, re.M)
+    if not m:
+        return None
+    tail = out[m.start():]
+    g = re.search(r"^goroutine \d+ \[running\]:\n((?:.+\n?)+)", tail, re.M)
+    if not g:
+        return None
+    for line in g.group(1).splitlines():
+        if line.startswith(("\t", " ")) or line.startswith("created by"):
+            continue
+        fn = line.rsplit("(", 1)[0]
+        if fn.startswith(("runtime.", "panic", "runtime/", "sync.", "sync/", "internal/")):
+            continue
+        return fn if fn.startswith(LIB) else None
+    return None
+
+
+def crash_isolate(binp, sub, module, wd, args, env, fn):
+    """Bisects the case file down to a smallest set of cases on which the same library crash reproduces."""
+    cases = [l for l in open(os.path.join(wd, f"{module}.cases.ndjson")) if l.strip()]
+
+    def crashes(subset):
+        with open(os.path.join(wd, "bisect.ndjson"), "w") as f:
+            f.writelines(subset)
+        rc, out = run([binp, sub, "-in", "bisect.ndjson", "-out", "bisect.obs.ndjson"] + args, wd, timeout=3600, env=env)
+        return rc != 0 and lib_crash(out) == fn, out
+    cur, last = cases, None
+    while len(cur) > 1:
+        a, b = cur[:len(cur) // 2], cur[len(cur) // 2:]
+        ok, out = crashes(a)
+        if ok:
+            cur, last = a, out
+            continue
+        ok, out = crashes(b)
+        if ok:
+            cur, last = b, out
+            continue
+        break
+    if last is None:
+        ok, last = crashes(cur)
+        if not ok:
+            return None, None
+    return [json.loads(l) for l in cur], last
 
 
 def table_run(pid, module, sub, tier, seed, wd, prefixes, sig, need=None, binp=None, harness_args=(), label=None, env=None):
@@ -33,6 +85,19 @@ def table_run(pid, module, sub, tier, seed, wd, prefixes, sig, need=None, binp=N
     log(f"[{pid}] design {module} ({tier}): {n} cases, every rule holds under the code's decision procedure ({d['wall']:.0f}s)")
     binp = binp or go_build(wd)
     rc, out = run([binp, sub, "-in", f"{module}.cases.ndjson", "-out", "obs.ndjson", "-seed", str(seed), "-tier", tier] + list(harness_args), wd, timeout=3600, env=env)
+    if rc != 0 and lib_crash(out):
+        # the harness process was killed by a panic inside a goroutine of zitadel/oidc itself: real-code behaviour, not a harness failure
+        fn = lib_crash(out)
+        hargs = ["-seed", str(seed), "-tier", tier] + list(harness_args)
+        culprits, cout = crash_isolate(binp, sub, module, wd, hargs, env, fn)
+        if culprits is None or not any(p.startswith("C09") for p in prefixes):
+            raise Inconclusive(f"{sub}: the process under test was killed by a panic in {fn}" + ("" if culprits is None else f" (cases {[c['id'] for c in culprits][:5]})")
+                               + "; only C09 judges panics:\n" + out[-2500:])
+        viols = [dict(rule="C09.nopanic:processCrash", id=c["id"], case=c["c"], observed=dict(crash=fn, output=cout[-1500:]), module=module,
+                      signature=f"C09.nopanic:processCrash:{fn}") for c in culprits[:20]]
+        log(f"[{pid}] {label}: the process executing the cases was killed by a panic in {fn} (library goroutine); isolated to {len(culprits)} case(s)")
+        return dict(design=dict(module=module, cfg=f"{module}Design_{tier}.cfg", states=d["distinct"], transitions=d["generated"], wall=round(d["wall"], 1)),
+                    cases=n, viols=viols, divergences=[], divergences_total=0, coverage={}, samples=[], crashed=True)
     if rc != 0 or "EXECUTED" not in out:
         raise Inconclusive(f"{sub} failed:\n" + out[-3000:])
     shutil.copy(os.path.join(wd, "obs.ndjson"), os.path.join(wd, f"{module}.obs.ndjson"))
@@ -109,6 +174,10 @@ def table_replay(pid, wd, path, parts):
             continue
         shutil.copy(src, wd)
         rc, out = run([binp, sub, "-in", f"{module}.cases.ndjson", "-out", "obs.ndjson", "-world", "world.json"], wd)
+        if rc != 0 and lib_crash(out) and any(p.startswith("C09") for p in prefixes):
+            bad += 1
+            log(f"  the process executing the saved cases is killed by a panic in {lib_crash(out)}:\n" + out[-1200:])
+            continue
         if rc != 0:
             raise Inconclusive(out[-2000:])
         t = tlc(wd, f"{module}Trace.tla", cfg=f"{module}Trace_quick.cfg", timeout=1800, outfile=f"{module}.trace.out")
@@ -195,7 +264,7 @@ def simple_table_check(parts, assumptions, required=(), world=False):
                 tb = table_run(pid, p["module"], p["sub"], tier, seed, wd, p["prefixes"], p["sig"], need=p.get("need"), binp=binp, label=p.get("label"),
                                harness_args=["-world", "world.json"] if world else ())
                 for k in p.get("required", ()):
-                    if not tb["coverage"].get(k):
+                    if not tb["coverage"].get(k) and not tb.get("crashed"):
                         raise Inconclusive(f"vacuous table run ({p['module']}): no observation {k}; have {sorted(tb['coverage'])[:40]}")
                 tbs.append(tb)
                 viols += tb["viols"]
@@ -323,7 +392,7 @@ def composed_check(fam_pid, parts, assumptions, world=False):
                 tb = table_run(pid, p["module"], p["sub"], tier, seed, wd, p["prefixes"], p["sig"], need=p.get("need"), label=p.get("label"),
                                harness_args=["-world", "world.json"] if world else ())
                 for k in p.get("required", ()):
-                    if not tb["coverage"].get(k):
+                    if not tb["coverage"].get(k) and not tb.get("crashed"):
                         raise Inconclusive(f"vacuous table run ({p['module']}): no observation {k}; have {sorted(tb['coverage'])[:40]}")
                 tbs.append(tb)
                 viols += tb["viols"]
@@ -503,7 +572,11 @@ CHECKS = {
               required=["P:login:obj", "L:login:obj"]),
          dict(module="KeyWiring", sub="tbl-keywiring", prefixes=("C02.",), label="configured key set table",
               sig=lambda o: f"wiring:{o['c']['opts']}:{o['c']['kind']}:{o['c']['by']}:{o['c']['router']}", need=lambda o: [f"{o['c']['kind']}:{o['o']['v']}"],
-              required=["at:accept", "at:reject", "hint:accept", "hint:reject"])],
+              required=["at:accept", "at:reject", "hint:accept", "hint:reject"]),
+         dict(module="KeyRotation", sub="tbl-keyrotation", prefixes=("C02.",), label="key rotation programs (one long-lived key set)",
+              sig=lambda o: "rotation:" + ">".join((s["op"][0] + (",".join(s["set"]) if s["op"] == "publish" else s["by"] + "/" + s["kid"])) for s in o["c"]["steps"]) + ":init=" + ",".join(o["c"]["init"]),
+              need=lambda o: [f"{e}:{x['v']}:dl{x['dl']}" for e in ("rp", "op") for x in o["o"][e] if x["v"] != "-"],
+              required=["rp:accept:dl0", "rp:accept:dl1", "rp:reject:dl0", "rp:reject:dl1", "op:accept:dl1", "op:reject:dl1"])],
         ["keys are real RSA-2048 / P-256 / Ed25519 keys; signatures are computed by the harness with crypto/* directly (not with go-jose), forged "
          "variants (foreign key, HMAC keyed with the public key, alg none, empty / garbage signature, re-encoded or replaced payload, JSON "
          "serialisations smuggling a second payload, two signatures) are built byte by byte",
